@@ -49,6 +49,56 @@ def specs(ctx):
     return out
 
 
+def _natural_end(spec):
+    """nfev / nit / message at which a run ends when no budget binds (probing run, harness side)."""
+    import warnings
+
+    warnings.simplefilter("ignore")
+    np.seterr(all="ignore")
+    import lbfgsb
+
+    p = corpus.make_problem(spec)
+    kw = dict(spec["kwargs"], maxiter=400, maxfun=4000)
+    try:
+        r = lbfgsb.minimize_lbfgsb(x0=p.x0, fun=p.fun, jac=p.grad, bounds=p.bounds, gtol=spec["gtol"][1], **kw)
+    except Exception:  # noqa: BLE001
+        return None
+    return int(r.nfev), int(r.nit), r.message
+
+
+def budget_sweeps(ctx):
+    """Budgets placed around the point where a run ends by itself - in particular runs that end in the round-off regime
+    with a failed line search (ftol = gtol = 0): maxfun from two below to maxls above the natural number of evaluations,
+    maxiter around the natural number of iterations. The classification of every such run must stay truthful."""
+    import multiprocessing as mp
+
+    from harness.common import NCPU
+
+    rng = np.random.default_rng([ctx.seed, 41])
+    base = []
+    for i in range(ctx.pick(24, 240)):
+        fam = ["rosenbrock", "qp", "qp4", "expwall", "beale", "qpcos"][i % 6]
+        base.append({"family": fam, "n": int(rng.integers(2, 5)), "pseed": int(rng.integers(1 << 30)), "jac": "callable",
+                     "start": "interior", "cond": float(10 ** rng.uniform(0, 2)), "gtol": ["float", 0.0],
+                     "kwargs": {"maxcor": int(rng.choice([2, 5])), "ftol": 0.0, "maxls": int(rng.choice([5, 10, 20]))}})
+    with mp.get_context("fork").Pool(NCPU) as pool:
+        ends = pool.map(_natural_end, base, chunksize=2)
+    out, abnormal = [], 0
+    for b, e in zip(base, ends):
+        if e is None or e[0] > 600:
+            continue
+        nfev, nit, msg = e
+        abnormal += "ABNORMAL" in msg
+        ml = b["kwargs"]["maxls"]
+        for mf in sorted({max(1, nfev + d) for d in (-2, -1, 0, 1, 2, ml // 2, ml - 1, ml, ml + 1)}):
+            out.append(dict(b, kwargs=dict(b["kwargs"], maxfun=int(mf), maxiter=1000)))
+        for mi in (max(0, nit - 1), nit, nit + 1):
+            out.append(dict(b, kwargs=dict(b["kwargs"], maxfun=4000, maxiter=int(mi))))
+    ctx.cov["budget_sweep_bases_ending_abnormally"] = abnormal
+    ctx.cov["budget_sweep_runs"] = len(out)
+    return out
+
+
 def apalache_inductive(ctx):
     """C04 budget clause for unbounded maxiter/maxfun/maxls: inductive invariant of Counters.tla (Apalache)."""
     import shutil
@@ -82,6 +132,7 @@ def run(ctx):
     apalache_inductive(ctx)
     drivercheck.design(ctx, wide=True, restart=True)
     drivercheck.run_traces(ctx, specs(ctx), PREFIX)
+    drivercheck.run_traces(ctx, budget_sweeps(ctx), PREFIX, label="budget-sweeps")
     # spec -> code: behaviours sampled by TLC from the design model, realised on the real solver (scripted objective,
     # configuration, callback stop, target threshold, injected fault) and validated as traces
     from harness import simreplay
